@@ -44,8 +44,49 @@ def token():
     return st.one_of(st.sampled_from(NON_PUSH_OPCODES), data_push())
 
 
+def template_like_script():
+    """The five standard scriptPubKey templates and NEAR MISSES of them: the same total size and outer
+    opcodes with another push length, one opcode changed, or a neighbouring hash length (what a recogniser
+    that looks at sizes or at the first and last bytes only would confuse with the real thing)."""
+    def build(t):
+        kind, h, near, op = t
+        n = {"p2pkh": 20, "p2sh": 20, "p2wpkh": 20, "p2wsh": 32, "p2tr": 32}[kind]
+        if near == "exact":
+            d = h[:n]
+        elif near == "shorter_push_same_size":
+            d = h[: n - 1]
+        elif near == "longer_hash":
+            d = h[: n + 1]
+        elif near == "shorter_hash":
+            d = h[: n - 1]
+        else:
+            d = h[:n]
+        filler = [op] if near == "shorter_push_same_size" else []
+        if kind == "p2pkh":
+            s = [0x76, 0xA9, d] + filler + [0x88, 0xAC]
+        elif kind == "p2sh":
+            s = [0xA9, d] + filler + [0x87]
+        elif kind == "p2wpkh" or kind == "p2wsh":
+            s = [0x00, d] + filler
+        else:
+            s = [0x51, d] + filler
+        if near == "other_opcode":
+            s = [op if (i == len(s) - 1 and isinstance(x, int)) else x for i, x in enumerate(s)]
+            if kind in ("p2wpkh", "p2wsh", "p2tr"):
+                s = [op] + s[1:]
+        return s
+
+    return st.tuples(
+        st.sampled_from(["p2pkh", "p2sh", "p2wpkh", "p2wsh", "p2tr"]),
+        st.binary(min_size=33, max_size=33),
+        st.sampled_from(["exact", "shorter_push_same_size", "longer_hash", "shorter_hash", "other_opcode"]),
+        st.sampled_from([0x61, 0x75, 0x51, 0x52, 0x60, 0xAC, 0x87, 0x88]),
+    ).map(build)
+
+
 def script(max_tokens=6):
-    return st.lists(token(), max_size=max_tokens)
+    return st.one_of(st.lists(token(), max_size=max_tokens), st.lists(token(), max_size=max_tokens),
+                     st.lists(token(), max_size=max_tokens), template_like_script())
 
 
 def tiny_script():
